@@ -234,3 +234,22 @@ def via_macro(head, item):
 def decl(head, item, cid, every=4):
     """declaration text of a case: every `every`-th case is declared through a macro_rules! macro (see via_macro)"""
     return via_macro(head, item) if cid % every == 0 else head + item
+
+
+def first_round_diags(name, mods, prelude='', crate_attrs=None):
+    """one rustc run (metadata only) over the batch, erroring modules included: every diagnostic with the module it
+    belongs to (or None).  Used to look for proc-macro panics in the REAL compiler, whatever else is wrong with the inputs."""
+    d = os.path.join(L2, name)
+    shutil.rmtree(d, ignore_errors=True)
+    spans = _write_crate(d, name, list(mods), prelude, True, crate_attrs)
+    rc, diags, stderr = _cargo(d, True, False)
+    out = []
+    for msg in diags:
+        line, sp = _primary_line(msg)
+        owner = None
+        for (a, b, m) in spans:
+            if line is not None and a <= line <= b:
+                owner = m
+                break
+        out.append((owner, msg['level'], msg['message']))
+    return out
